@@ -11,8 +11,8 @@ def build_tg(I, tiers, m, M):
     tgcls = I.idx.cls("Textgrid")
     tg = I.instantiate(tgcls, [m, M], {})
     objs = []
-    for kind, name, ents in tiers:
-        t = build_tier(I, kind, name, ents, m, M)
+    for kind, name, ents, *own in tiers:
+        t = build_tier(I, kind, name, ents, *(own if own else (m, M)))
         I.call_value(I.getattr(tg, "addTier"), [t], {})
         objs.append(t)
     return tg, objs
@@ -24,8 +24,10 @@ def read_tg(I, tg):
     return {"names": names, "tiers": tiers, "min": I.getattr(tg, "minTimestamp"), "max": I.getattr(tg, "maxTimestamp")}
 
 
-def lifted_table(rep, rule, method, shape, extra, modes, tg_call, tier_call, what, shared_span=None, check_valid=None):
-    """shape: list of (kind, name, k).  tg_call(I, tg, sy, mode) ; tier_call(I, tier, sy, mode)."""
+def lifted_table(rep, rule, method, shape, extra, modes, tg_call, tier_call, what, shared_span=None, check_valid=None, own_spans=False, tg_span=None):
+    """shape: list of (kind, name, k).  tg_call(I, tg, sy, mode) ; tier_call(I, tier, sy, mode).
+    own_spans: the tiers are built without explicit bounds, so each spans only its own entries, strictly inside
+    the textgrid's [m, M] in general; tg_span(I, sy, mode, m, M) -> the span the resulting textgrid must have."""
     idx = common.ctx()
     fn = idx.get("Textgrid." + method)
     rep.functions.add(fn.qual)
@@ -41,7 +43,7 @@ def lifted_table(rep, rule, method, shape, extra, modes, tg_call, tier_call, wha
             last = (name + "e%d" % k) if kind == "interval" else (name + "t%d" % k)
             at.rel("m", "<=", first)
             at.rel(last, "<=", "M")
-        tiers.append((kind, name, ents))
+        tiers.append((kind, name, ents, None, None) if own_spans else (kind, name, ents))
     sy = extra(at) or {}
     tr = TableRun(rep, rule, fn.short, fn.loc)
 
@@ -102,6 +104,11 @@ def lifted_table(rep, rule, method, shape, extra, modes, tg_call, tier_call, wha
                         if not (num_equal(I, gt["min"], v["min"]) and num_equal(I, gt["max"], v["max"])):
                             diff = "tier %s span (%r, %r) differs from the textgrid's span (%r, %r)" % (name, gt["min"], gt["max"], v["min"], v["max"])
                             break
+            if diff is None and tg_span is not None:
+                want_span = tg_span(I, sy, mode, m, M)
+                lo, hi = want_span if want_span else (v["min"], v["max"])
+                if not (num_equal(I, v["min"], lo) and num_equal(I, v["max"], hi)):
+                    diff = "textgrid span is (%r, %r), expected (%r, %r)" % (v["min"], v["max"], lo, hi)
             if diff is None and "valid" in v and not v["valid"]:
                 diff = "validate() of the result is False"
             out.append((mode, diff is None, diff or "", None))
